@@ -473,6 +473,18 @@ def _as_constant_array(t: Union["Tensor", np.ndarray]) -> np.ndarray:
     return t
 
 
+def _is_tracked_view_of(base: "Tensor", tensor: "Tensor") -> bool:
+    """Returns True if `tensor` is registered, directly or through other
+    views, among the views of `base`."""
+    stack = [base]
+    while stack:
+        for child in stack.pop()._view_children:
+            if child is tensor:
+                return True
+            stack.append(child)
+    return False
+
+
 class Tensor:
     """A numpy-array-like object capable of serving as a node in a computational
     graph that supports back-propagation of derivatives via the chain rule.
@@ -1722,7 +1734,9 @@ class Tensor:
         # fails the view must be left as it was
         old_base = self._base
         self.null_grad(_clear_view_info=True)
-        if self._base is not None and not self._base._view_children:
+        if self._base is not None and not _is_tracked_view_of(self._base, self):
+            # the base no longer lists `self` among its views (its graph was
+            # cleared since): `self` carries on as a base of its own
             self._base = None
         stale_base = old_base if self._base is None else None
 
